@@ -156,9 +156,10 @@ def _lo_job(job):
     from .. import model
 
     proj = model.project()
-    kind, process, pname, nf = job
+    kind, process, pname, nf, fl = job
+    tagged = {"charm": 4, "bottom": 5, "top": 6}.get(fl)
     s = ew.syms()
-    cell = R.Cell(obs=f"{kind}_light", process=process, fns="ZM-VFNS", nfff=4, nf=nf, pto=0, projectile=pname, ren_sv=False, fact_sv=False)
+    cell = R.Cell(obs=f"{kind}_{fl}", process=process, fns="ZM-VFNS", nfff=4, nf=nf, pto=0, projectile=pname, ren_sv=False, fact_sv=False)
     try:
         op = O.fold_op(proj, cell, weights="full")
     except O.FoldFailure as f:
@@ -199,7 +200,7 @@ def _lo_job(job):
             n += 1
             got = op.entry(key, pid, j)
             q = abs(pid)
-            if kind in LO_VANISHES or q == 0 or q > nf or pid in (21, 22):
+            if kind in LO_VANISHES or q == 0 or q > nf or pid in (21, 22) or (tagged is not None and q != tagged):
                 exp = A.Rat.const(0)
             elif process in ("EM", "NC"):
                 sign = (-1 if ppid > 0 else 1) if abs(ppid) == 11 else None
@@ -262,12 +263,18 @@ def check_lo(rep, proj, tier):
                 continue
             if tier == "quick" and nf in (3, 6) and pname in ("positron", "antineutrino") and process == "NC":
                 continue
-            jobs.append((kind, process, pname, nf))
+            jobs.append((kind, process, pname, nf, "light"))
+            # flavour-tagged observables of a quark that is massless in the scheme: the same parton model restricted to that quark
+            if process != "CC" and pname in ("electron", "neutrino") and nf >= 4:
+                for fl in ("charm", "bottom", "top"):
+                    if tier == "quick" and fl == "top" and kind not in ("F2", "F3"):
+                        continue
+                    jobs.append((kind, process, pname, nf, fl))
     outs = sweep.run_cells(_lo_job, jobs)
     n_entries = 0
     for job, o in zip(jobs, outs):
-        kind, process, pname, nf = job
-        label = f"LO {kind}_light {process} {pname} nf={nf}"
+        kind, process, pname, nf, fl = job
+        label = f"LO {kind}_{fl} {process} {pname} nf={nf}"
         if o[0] == "fold":
             rep.undecided("C02.lo", "", label, f"not foldable ({o[1]}): {o[2]}")
             continue
